@@ -332,6 +332,7 @@ func xfNameCleanup(name string) {
 // xfRunSeq runs one sequence on the implementation and its os.File twin. It stops at the first
 // disagreement (after a F12 disagreement the offsets are re-synchronised and the run continues).
 func xfRunSeq(sc xfSeqCase, real *xfReal, hold *xfPeerHold, dir string) (res xfSeqResult) {
+	kase := lib.NewCase(xfClass(sc.Srv)) // hang account of this sequence (lib/budget.go)
 	if hold != nil {
 		xfInflight(hold.slot, sc)
 	} else {
@@ -403,7 +404,7 @@ func xfRunSeq(sc xfSeqCase, real *xfReal, hold *xfPeerHold, dir string) (res xfS
 	}
 	defer tw.Close()
 	var f *sftp.File
-	if ok, _ := xfGuard(func() { f, err = mode.Open(cli, path) }); !ok || err != nil {
+	if ok, _ := xfGuardK(kase, func() { f, err = mode.Open(cli, path) }); !ok || err != nil {
 		if sc.Open != "" && ok {
 			res.Fails = append(res.Fails, xfSeqFailure{Key: "open/" + mode.Name, What: "opening the served file in this mode failed", At: -1, Expected: "<nil>", Actual: fmt.Sprint(err)})
 			return
@@ -556,7 +557,7 @@ func xfRunSeq(sc xfSeqCase, real *xfReal, hold *xfPeerHold, dir string) (res xfS
 		var serr, terr error
 		var sdata, tdata []byte
 		var src xfSource
-		ok, pn := xfGuard(func() {
+		ok, pn := xfGuardK(kase, func() {
 			switch op.K {
 			case "r":
 				sb, tb := make([]byte, op.N), make([]byte, op.N)
@@ -729,7 +730,7 @@ func xfRunSeq(sc xfSeqCase, real *xfReal, hold *xfPeerHold, dir string) (res xfS
 				applied = peer.TakeApplied()
 				peer.SetBehaviour(func(o *xfPeerOpts) { o.Fail = nil; o.Window = sc.Window })
 			} else {
-				xfGuard(func() { cli.Lstat(path0) }) // responses are sent in request order: every earlier WRITE is done
+				xfGuardK(kase, func() { cli.Lstat(path0) }) // responses are sent in request order: every earlier WRITE is done
 				applied = real.Mem.TakeApplied()
 			}
 			so, e1 := f.Seek(0, io.SeekCurrent)
@@ -1377,9 +1378,7 @@ func xfRunRace(sc xfSeqCase) (fails []xfSeqFailure, stats map[string]int) {
 	}
 	done := make(chan struct{})
 	go func() { close(start); wg.Wait(); close(done) }()
-	select {
-	case <-done:
-	case <-time.After(20 * time.Second):
+	if _, ok := lib.WaitHang(xfProp+"/close-race", 20*time.Second, done); !ok {
 		fail("race/hang", "Close racing with ReadAt/WriteAt/Stat/Truncate did not finish within 20 s", "finish", "hang")
 		return
 	}
